@@ -14,6 +14,7 @@ import (
 	"strconv"
 	"strings"
 	"sync"
+	"sync/atomic"
 	"time"
 
 	"0chain.net/chaincore/block"
@@ -28,17 +29,18 @@ import (
 )
 
 type op struct {
-	K    string `json:"k"`
-	P    int64  `json:"p,omitempty"`    // phase / timeout count / vote number / prrs
-	Who  int    `json:"who,omitempty"`  // party index (share, vote), self index (inc)
-	Thr  int    `json:"thr,omitempty"`  // threshold
-	Cap  int    `json:"cap,omitempty"`  // timeout cap for inc
+	K   string `json:"k"`
+	P   int64  `json:"p,omitempty"`   // phase / timeout count / vote number / prrs
+	Who int    `json:"who,omitempty"` // party index (share, vote), self index (inc)
+	Thr int    `json:"thr,omitempty"` // threshold
+	Cap int    `json:"cap,omitempty"` // timeout cap for inc
 }
 
 type hist struct {
-	Number  int64 `json:"number"`
-	Parties int   `json:"parties"`
-	Ops     []op  `json:"ops"`
+	Kind    string `json:"kind,omitempty"` // "" = op history, "stress" = concurrent SetPhase stress
+	Number  int64  `json:"number"`
+	Parties int    `json:"parties"`
+	Ops     []op   `json:"ops"`
 }
 
 var (
@@ -98,23 +100,25 @@ func curGID() int64 {
 	return g
 }
 
-// parkedOnMutex: is goroutine gid waiting in sync.(RW)Mutex.Lock/RLock?
-func parkedOnMutex(gid int64) bool {
+func allStacks() string {
 	buf := make([]byte, 1<<20)
 	for {
 		n := runtime.Stack(buf, true)
 		if n < len(buf) {
-			buf = buf[:n]
-			break
+			return string(buf[:n])
 		}
 		buf = make([]byte, 2*len(buf))
 	}
+}
+
+// parkedIn: in the stack dump, is goroutine gid waiting in sync.(RW)Mutex.Lock/RLock?
+func parkedIn(dump string, gid int64) bool {
 	key := fmt.Sprintf("goroutine %d [", gid)
-	i := strings.Index(string(buf), key)
+	i := strings.Index(dump, key)
 	if i < 0 {
 		return false
 	}
-	rest := string(buf[i+len(key):])
+	rest := dump[i+len(key):]
 	j := strings.Index(rest, "]")
 	if j < 0 {
 		return false
@@ -123,32 +127,40 @@ func parkedOnMutex(gid int64) bool {
 	return strings.Contains(st, "Mutex") || strings.Contains(st, "semacquire")
 }
 
+func parkedOnMutex(gid int64) bool { return parkedIn(allStacks(), gid) }
+
+type pend struct {
+	done chan string
+	gid  int64
+}
+
 // runOp runs f in a goroutine. blocked = f did not return and its goroutine is parked on a mutex.
-func runOp(f func() string) (res string, blocked bool, done chan string) {
-	done = make(chan string, 1)
+func runOp(f func() string) (res string, blocked bool, pd pend) {
+	done := make(chan string, 1)
 	gidc := make(chan int64, 1)
 	go func() {
 		gidc <- curGID()
 		done <- f()
 	}()
 	gid := <-gidc
+	pd = pend{done, gid}
 	deadline := time.Now().Add(20 * time.Second)
 	wait := 200 * time.Microsecond
 	for {
 		select {
 		case r := <-done:
-			return r, false, done
+			return r, false, pd
 		case <-time.After(wait):
 		}
 		if parkedOnMutex(gid) {
 			// confirm: still parked and still not done a moment later
 			select {
 			case r := <-done:
-				return r, false, done
+				return r, false, pd
 			case <-time.After(500 * time.Microsecond):
 			}
 			if parkedOnMutex(gid) {
-				return "", true, done
+				return "", true, pd
 			}
 		}
 		if wait < 20*time.Millisecond {
@@ -172,15 +184,6 @@ type obs struct {
 	blocked bool
 }
 
-func needsLock(k string) bool {
-	switch k {
-	case "restart", "share", "shares", "notarized", "setfinalizing", "setfinalized", "finalize",
-		"resetfinifnot", "resetfin", "isfinalized", "isfinalizing":
-		return true
-	}
-	return false
-}
-
 func run(h hist) (obsList []obs, opsCoq []string, fail string, kinds map[string]int) {
 	kinds = map[string]int{}
 	r := round.NewRound(h.Number)
@@ -198,7 +201,6 @@ func run(h hist) (obsList []obs, opsCoq []string, fail string, kinds map[string]
 		sort.Ints(sh)
 		return int64(r.GetPhase()), int64(r.VerifFinalizingState()), int64(r.GetTimeoutCount()), !r.VerifMutexFree(), sh
 	}
-	var pending []chan string
 	culprit := "" // the operation that returned leaving the mutex locked
 	for _, o := range h.Ops {
 		prePhase, preFin, preT, preHeld, preShares := peek()
@@ -249,13 +251,16 @@ func run(h hist) (obsList []obs, opsCoq []string, fail string, kinds map[string]
 				blockNo++
 				b := block.NewBlock("", h.Number)
 				b.Hash = fmt.Sprintf("%064x", blockNo)
-				b.RoundRank = blockNo
+				b.RoundRank = blockNo % 50
 				r.AddNotarizedBlock(b)
 				return "VUnit"
 			}
 		case "settimeout":
-			coq = "SmSetTimeout " + vh.Z(o.P)
-			f = func() string { return "(VBool " + vh.Bool(r.SetTimeoutCount(int(o.P))) + ")" }
+			coq = "SmSetTimeout " + vh.Z(o.P) + " " + vh.Z(int64(o.Cap))
+			f = func() string {
+				viper.Set("server_chain.round_timeouts.timeout_cap", o.Cap)
+				return "(VBool " + vh.Bool(r.SetTimeoutCount(int(o.P))) + ")"
+			}
 		case "inc":
 			// perm is recorded after the call (the stored order); the model uses it only when it has none yet
 			f = func() string {
@@ -299,7 +304,7 @@ func run(h hist) (obsList []obs, opsCoq []string, fail string, kinds map[string]
 		default:
 			panic("unknown op " + o.K)
 		}
-		res, blocked, done := runOp(f)
+		res, blocked, pd := runOp(f)
 		if o.K == "inc" {
 			var perm []int
 			for _, id := range r.VerifTimeoutPerm() {
@@ -312,7 +317,7 @@ func run(h hist) (obsList []obs, opsCoq []string, fail string, kinds map[string]
 		ob := obs{phase: phase, fin: fin, tcount: tc, held: held, shares: shares, blocked: blocked}
 		if blocked {
 			ob.res = "Blocked"
-			pending = append(pending, done)
+			_ = pd // the goroutine stays parked for good; the round object is abandoned with it
 			kinds["blocked"]++
 		} else {
 			ob.res = "(Ret " + res + ")"
@@ -384,24 +389,9 @@ func run(h hist) (obsList []obs, opsCoq []string, fail string, kinds map[string]
 		if o.K == "resetfinifnot" && preFinalized {
 			kinds["conditional-reset-on-finalized"]++
 		}
-	}
-	// clean up: release the leaked mutex so the parked goroutines finish (results discarded)
-	for tries := 0; len(pending) > 0 && tries < 1000; tries++ {
-		if !r.VerifMutexFree() {
-			func() {
-				defer func() { _ = recover() }()
-				r.VerifUnlock()
-			}()
+		if blocked {
+			break // a history ends at its first operation that does not return (later ops are not run)
 		}
-		var still []chan string
-		for _, d := range pending {
-			select {
-			case <-d:
-			case <-time.After(2 * time.Millisecond):
-				still = append(still, d)
-			}
-		}
-		pending = still
 	}
 	return
 }
@@ -431,7 +421,7 @@ func genHist(r *vh.Rand) hist {
 		h.Number = 0
 	}
 	thr := r.Range(1, 4)
-	cap := []int{0, 0, 1, 3}[r.Intn(4)]
+	cap := []int{0, 0, 1, 3, 4}[r.Intn(5)]
 	n := r.Range(3, 22)
 	phases := []int64{0, 1, 2, 3, 4}
 	if r.Chance(1, 6) {
@@ -464,13 +454,10 @@ func genHist(r *vh.Rand) hist {
 		case x < 52:
 			o = op{K: "notarized"}
 		case x < 58:
-			o = op{K: "settimeout", P: r.Pick64(counts)}
+			o = op{K: "settimeout", P: r.Pick64(counts), Cap: cap}
 		case x < 66:
-			c := cap
-			if r.Chance(1, 10) {
-				c = r.Range(0, 4)
-			}
-			o = op{K: "inc", P: []int64{0, 7, 7, 11, -5}[r.Intn(5)], Who: r.Intn(h.Parties), Cap: c}
+			// the cap is a chain-wide setting: constant within a history
+			o = op{K: "inc", P: []int64{0, 7, 7, 11, -5}[r.Intn(5)], Who: r.Intn(h.Parties), Cap: cap}
 		case x < 72:
 			o = op{K: "vote", P: r.Pick64(counts), Who: r.Intn(h.Parties)}
 		case x < 75:
@@ -502,23 +489,56 @@ func key(h hist) string { return fmt.Sprintf("%d|%d|%v", h.Number, h.Parties, h.
 // stressSetPhase runs SetPhase(Share) and SetPhase(Verify) at the same time on fresh rounds and
 // reports a trial in which both returned and the phase is not Share (the later, smaller store won).
 func stressSetPhase(d time.Duration) (trials int, lost int) {
+	// two long-lived workers released together by a spinning barrier, so that their load/store
+	// pairs overlap as often as possible
+	var (
+		cur   atomic.Pointer[round.Round]
+		gen   atomic.Int64
+		ready atomic.Int64
+		fin   atomic.Int64
+		stop  atomic.Bool
+		wg    sync.WaitGroup
+	)
+	worker := func(ph round.Phase) {
+		defer wg.Done()
+		runtime.LockOSThread()
+		seen := int64(0)
+		for {
+			for gen.Load() == seen {
+				if stop.Load() {
+					return
+				}
+			}
+			seen = gen.Load()
+			r := cur.Load()
+			ready.Add(1)
+			for ready.Load() < 2 {
+			}
+			r.SetPhase(ph)
+			fin.Add(1)
+		}
+	}
+	wg.Add(2)
+	go worker(round.Share)
+	go worker(round.Verify)
 	end := time.Now().Add(d)
 	for time.Now().Before(end) {
-		for k := 0; k < 2000; k++ {
+		for k := 0; k < 5000; k++ {
 			r := round.NewRound(3)
-			var wg sync.WaitGroup
-			start := make(chan struct{})
-			wg.Add(2)
-			go func() { <-start; r.SetPhase(round.Share); wg.Done() }()
-			go func() { <-start; r.SetPhase(round.Verify); wg.Done() }()
-			close(start)
-			wg.Wait()
+			cur.Store(r)
+			ready.Store(0)
+			fin.Store(0)
+			gen.Add(1)
+			for fin.Load() < 2 {
+			}
 			trials++
 			if r.GetPhase() != round.Share {
 				lost++
 			}
 		}
 	}
+	stop.Store(true)
+	wg.Wait()
 	return
 }
 
@@ -529,8 +549,8 @@ func main() {
 	rep.Rule = "random histories of 3-22 round operations (set/reset/get phase, restart, add/get VRF shares over 3-6 miners with " +
 		"threshold 1-4, add notarized block, set/increment/get timeout count with votes and cap 0/1/3, finalizing-state ops; " +
 		"1 in 6 with out-of-range phases or extreme counts, 1 in 8 on round 0) + all sequences over a 12-op alphabet up to a bound; " +
-		"each op runs under a watchdog. Non-trivial = a share was accepted and one refused, a restart was rejected, and the phase " +
-		"or the timeout count changed; distinct by full op list"
+		"each op runs under a watchdog. Non-trivial = a share was accepted, a share was refused or a restart rejected, and a phase " +
+		"or timeout operation ran; distinct by full op list"
 	cf := &vh.CasesFile{Imports: []string{"Base.Corr", "Model.RoundSM", "Corr.RoundSM"}, CaseType: "sm_case", CheckFn: "sm_check"}
 
 	handle := func(h hist, toCoq bool) {
@@ -538,7 +558,7 @@ func main() {
 		for k, n := range kinds {
 			rep.CountN(k, n)
 		}
-		nontriv := kinds["share-accepted"] > 0 && kinds["share-refused"] > 0 && kinds["restart-rejected"] > 0 &&
+		nontriv := kinds["share-accepted"] > 0 && (kinds["share-refused"]+kinds["restart-rejected"] > 0) &&
 			(kinds["setphase"]+kinds["notarized"]+kinds["inc"]+kinds["settimeout"] > 0)
 		rep.Case(key(h), nontriv, h)
 		if toCoq {
@@ -573,6 +593,15 @@ func main() {
 
 	var rh hist
 	if o.LoadReplay(&rh) {
+		if rh.Kind == "stress" {
+			trials, lost := stressSetPhase(30 * time.Second)
+			rep.Case("stress", true, rh)
+			if lost > 0 {
+				rep.Violate("C37:phase-lost-update", fmt.Sprintf("phase below Share after concurrent SetPhase(Share)/SetPhase(Verify) in %d of %d trials", lost, trials), rh)
+			}
+			finish()
+			return
+		}
 		if rh.Parties == 0 {
 			rh.Parties = 3
 		}
@@ -580,13 +609,31 @@ func main() {
 		finish()
 		return
 	}
+	// directed histories: the edges of every clause, always run
+	maxI := int64(math.MaxInt64)
+	for _, h := range []hist{
+		{Number: 4, Parties: 3, Ops: []op{{K: "notarized"}, {K: "restart"}, {K: "shares"}}},
+		{Number: 4, Parties: 3, Ops: []op{{K: "setphase", P: 4}, {K: "restart"}, {K: "setphase", P: 2}, {K: "getphase"}, {K: "gettimeout"}, {K: "isfinalized"}}},
+		{Number: 4, Parties: 3, Ops: []op{{K: "setphase", P: 2}, {K: "restart"}, {K: "restart"}, {K: "shares"}}},
+		{Number: 4, Parties: 3, Ops: []op{{K: "settimeout", P: 3, Cap: 1}, {K: "inc", P: 7, Who: 0, Cap: 1}, {K: "gettimeout"}}},
+		{Number: 4, Parties: 3, Ops: []op{{K: "settimeout", P: 1, Cap: 1}, {K: "inc", P: 7, Who: 0, Cap: 1}, {K: "inc", P: 7, Who: 0, Cap: 1}}},
+		{Number: 4, Parties: 3, Ops: []op{{K: "settimeout", P: maxI}, {K: "inc", P: 7, Who: 0}, {K: "gettimeout"}}},
+		{Number: 4, Parties: 3, Ops: []op{{K: "vote", P: maxI, Who: 1}, {K: "inc", P: 7, Who: 0}, {K: "inc", P: 7, Who: 0}, {K: "gettimeout"}}},
+		{Number: 4, Parties: 3, Ops: []op{{K: "vote", P: 5, Who: 1}, {K: "vote", P: 9, Who: 2}, {K: "vote", P: 8, Who: 0}, {K: "inc", P: 7, Who: 0, Cap: 6}, {K: "inc", P: 0, Who: 0, Cap: 6}, {K: "settimeout", P: 2, Cap: 6}}},
+		{Number: 4, Parties: 4, Ops: []op{{K: "share", Who: 0, Thr: 2}, {K: "share", Who: 0, Thr: 2}, {K: "share", Who: 1, Thr: 2}, {K: "share", Who: 2, Thr: 2}, {K: "share", Who: 2, Thr: 3}, {K: "share", Who: 3, Thr: 0}, {K: "shares"}, {K: "restart"}, {K: "shares"}}},
+		{Number: 4, Parties: 3, Ops: []op{{K: "setfinalizing"}, {K: "setfinalizing"}, {K: "resetfinifnot"}, {K: "finalize"}, {K: "resetfinifnot"}, {K: "isfinalized"}, {K: "setfinalizing"}, {K: "resetfin"}, {K: "isfinalized"}}},
+		{Number: 0, Parties: 3, Ops: []op{{K: "isfinalized"}, {K: "setfinalizing"}, {K: "resetfinifnot"}, {K: "resetfin"}, {K: "isfinalized"}}},
+		{Number: 4, Parties: 3, Ops: []op{{K: "resetphase", P: -1}, {K: "share", Who: 0, Thr: 1}, {K: "getphase"}, {K: "setphase", P: math.MinInt32}, {K: "setphase", P: math.MaxInt32}, {K: "restart"}}},
+	} {
+		handle(h, true)
+	}
 	rnd := vh.NewRand(o.Seed)
 	for i := 0; i < o.N(350, 3500); i++ {
 		handle(genHist(rnd), true)
 	}
 	// exhaustive short sequences
 	alpha := []op{{K: "setphase", P: 1}, {K: "setphase", P: 3}, {K: "resetphase", P: 0}, {K: "restart"},
-		{K: "share", Who: 0, Thr: 1}, {K: "share", Who: 1, Thr: 1}, {K: "notarized"}, {K: "settimeout", P: 2},
+		{K: "share", Who: 0, Thr: 1}, {K: "share", Who: 1, Thr: 1}, {K: "notarized"}, {K: "settimeout", P: 2, Cap: 1},
 		{K: "inc", P: 7, Who: 0, Cap: 1}, {K: "setfinalized"}, {K: "resetfinifnot"}, {K: "isfinalized"}}
 	maxLen, coqLen := o.N(3, 4), o.N(2, 2)
 	var rec func(cur []op)
@@ -604,13 +651,13 @@ func main() {
 	}
 	rec(nil)
 	rep.Note("exhaustive: all sequences over %d ops up to length %d on the implementation oracle; up to length %d also compared with the model", len(alpha), maxLen, coqLen)
-	if o.Thorough() {
-		trials, lost := stressSetPhase(20 * time.Second)
+	{
+		trials, lost := stressSetPhase(time.Duration(o.N(2, 20)) * time.Second)
 		rep.Note("concurrent SetPhase(Share) || SetPhase(Verify) stress: %d trials, %d ended below Share", trials, lost)
 		rep.CountN("setphase-stress-trials", trials)
 		if lost > 0 {
 			rep.Violate("C37:phase-lost-update", fmt.Sprintf("two concurrent SetPhase calls (Share, Verify) both returned and the phase is below Share in %d of %d trials", lost, trials),
-				map[string]interface{}{"kind": "stress", "threads": []string{"SetPhase(Share)", "SetPhase(Verify)"}})
+				hist{Kind: "stress"})
 		}
 	}
 	finish()
